@@ -32,7 +32,7 @@ EXPLANATION = "theorems over the trie model of eliot.parse; model tied to the co
 # ---- generation -----------------------------------------------------------------------------
 
 def gen_tree(rng, uuid, pre, depth, maxdepth, msgs, ctr):
-    t = rng.choice("ab")
+    t = rng.choice(["a", "b", "a", "b", ""])  # the default action type is the empty string
     msgs.append(dict(uuid=uuid, level=pre + [1], atype=t, status="started", body=next(ctr)))
     n = 2
     d = depth
